@@ -1,7 +1,7 @@
 """C07 - add_child never accepts a child that makes the element impossible to complete."""
 from mc import structcheck
 
-PROFILES = [('addrem', 4000, 60000), ('adds', 3000, 40000), ('fwd', 20000, 200000)]
+PROFILES = [('addrem', 4000, 60000), ('adds', 3000, 40000), ('fwd', 20000, 200000), ('xaddrem', 0, 40000), ('xaddrem@fwd', 0, 150000)]
 
 
 def run(tier):
